@@ -104,7 +104,7 @@ def internal_server_error(req, *_):
     in dispatch_table.errors. If poor_Debug variable is to On, Tracaback
     will be generated.
     """
-    handler = {"module": None, "name": None}
+    handler = {"module": None, "name": None, "args": None}
     if req.uri_handler:
         handler["module"] = req.uri_handler.__module__
         handler["name"] = req.uri_handler.__name__
